@@ -44,7 +44,7 @@ func genC19Sim(seed uint64, tier string) *world.Scenario {
 			idxs = append(idxs, i)
 		}
 	}
-	sc := genC09(uint64(idxs[int(seed%uint64(len(idxs)))]), false)
+	sc := genC09(invIdx(idxs[int((seed%uint64(len(idxs)))*104729%uint64(len(idxs)))], total), false)
 	sc.Family = "c19sim"
 	sc.Seed = seed
 	sc.Params["execFaults"] = float64(len(idxs))
@@ -178,3 +178,13 @@ func trunc(s string, n int) string {
 }
 
 var _ = kernel.Pick[int]
+
+// invIdx returns a seed that genC09 maps to enumeration index idx.
+func invIdx(idx, total int) uint64 {
+	for s := 0; s < total; s++ {
+		if int(uint64(s)*7919%uint64(total)) == idx {
+			return uint64(s)
+		}
+	}
+	return 0
+}
